@@ -113,3 +113,14 @@ package txresult
 //@   iface
 //@   trusted
 //@   modifies *
+
+// C08 / C26: a compressed bloom from a block header is taken over whole - whatever its length
+//@ property C08 C26
+//@ func (lb *LogsBloom) SetCompressedBytes(bs) (r)
+//@   arith int
+//@   nosafety
+//@   modifies *
+//@   opt no-callee-pre
+//@   opt inline-none
+//@   requires lb != nil
+//@   callpre Int.SetBytes: buf == ghost(decomp_res) && z == addr(lb.Int)
